@@ -1910,12 +1910,12 @@ func genLateRegister(r rng, k int) *Spec {
 // ---------------------------------------------------------------------------
 
 // LongProbeTotal is the size of the enumeration.
-func LongProbeTotal() int { return 3 * 2 * 2 * 2 }
+func LongProbeTotal() int { return 4 * 2 * 2 * 2 }
 
 func genLongProbe(r rng, k int) *Spec {
 	idx := k % LongProbeTotal()
-	gone := []string{"outdel", "outexpire", "forge-then-del"}[idx%3]
-	idx /= 3
+	gone := []string{"outdel", "outexpire", "forge-then-del", "forge"}[idx%4]
+	idx /= 4
 	phase := []string{"req", "resp"}[idx%2]
 	idx /= 2
 	orDemote := idx%2 == 0
@@ -1934,6 +1934,12 @@ func genLongProbe(r rng, k int) *Spec {
 	if two {
 		s.Actions = append(s.Actions, Action{At: 300 * ms, Kind: "start", Inst: "i1"})
 	}
+	if gone == "forge" {
+		// the record is replaced BEFORE the validation is called; the instance has not noticed
+		// yet (its watch event is on its way) and notices while the validation's read is out
+		s.Watch = WatchPolicy{DelayMax: 150 * ms}
+		s.Actions = append(s.Actions, Action{At: 2*sec - ms, Kind: "output", Inst: "g0", Val: `{"id":"intruder","token":"p"}`})
+	}
 	s.Actions = append(s.Actions,
 		Action{At: 2 * sec, Kind: "arm", Break: "lp"},
 		Action{Chain: true, Kind: "validate", Inst: "i0", Val: "bg", OrDemote: orDemote},
@@ -1944,13 +1950,17 @@ func genLongProbe(r rng, k int) *Spec {
 		s.Actions = append(s.Actions, Action{After: ms, Kind: "outdel", Inst: "g0"})
 	case "outexpire":
 		s.Actions = append(s.Actions, Action{After: ms, Kind: "outexpire", Inst: "g0"})
+	case "forge":
 	default:
 		s.Actions = append(s.Actions, Action{After: ms, Kind: "output", Inst: "g0", Val: `{"id":"intruder","token":"p"}`},
 			Action{After: h, Kind: "outdel", Inst: "g0"})
 	}
-	// heartbeat failure (<= H), periodic check (500 ms), jitter and retries: the key has a new owner by then
+	wait := 2*h + 1200*ms // heartbeat failure (<= H), periodic check (500 ms), jitter and retries: the key has a new owner by then
+	if gone == "forge" {
+		wait = r.pickD(200*ms, 300*ms, h+100*ms)
+	}
 	s.Actions = append(s.Actions,
-		Action{After: 2*h + 1200*ms, Kind: "release", Break: "lp"},
+		Action{After: wait, Kind: "release", Break: "lp"},
 		Action{After: ms, Kind: "waitapi", Inst: "i0", D: 5 * sec},
 	)
 	s.Duration = 6 * h
